@@ -330,6 +330,17 @@ Theorem C06_law_minres_stable_sound : forall sp xs got,
 Proof. exact law_minres_stable_sound. Qed.
 Print Assumptions C06_law_minres_stable_sound.
 
+(* ... and from the law's own guard: the greedy amount over that stable order *)
+Theorem C06_law_minres_stable_amount : forall sp xs got,
+  well_formed sp = true -> law_minres_stable sp xs got = true -> (length (s_tasks sp) < 12)%nat ->
+  let l := ptasks sp xs in let o := sort_prio l in
+  got = (if s_min sp <? total_min l then rsum (greedy (map pt_replicas o) (s_min sp)) o
+         else let own := greedy (map own_min o) (s_min sp) in
+              radd (rsum own o) (rsum (greedy (map spare o) (s_min sp - zsum own)) o)) /\
+  desc_prio o = true /\ Permutation o l /\ forall p, filter (same_prio p) o = filter (same_prio p) l.
+Proof. exact law_minres_stable_amount. Qed.
+Print Assumptions C06_law_minres_stable_amount.
+
 (* law 205 MEANS the mirror clause *)
 Theorem C06_law_pg_sound : forall sp xs jp q g,
   law_pg sp xs jp q g = true ->
@@ -346,17 +357,8 @@ Example C06_nonvacuous_minres_amount :
   radd (rsum [1; 0] l) (rsum [2; 1] l) = mkR 4 (3 * 100 + 1 * 250) (3 * 64).
 Proof. exact minres_amount_example. Qed.
 
-(* ---- the resync worker (round 8): syncTask for a pod queued after a failed delete, with or without the pod
-   disappearing (and its delete event being handled) between the worker's GET and its cache.UpdatePod:
-   it never ADDS a pod to the job cache, touches no other pod and no status; a pod that vanished from the
-   API server did so only through the race ---- *)
-Theorem C06_resync_adds_no_pod : forall w t i race w' e wr,
-  step w (OResyncPod t i race) = (w', e, wr) ->
-  incl (pod_ids (v_pods w')) (pod_ids (v_pods w)) /\ incl (pod_ids (w_pods w')) (pod_ids (w_pods w)) /\
-  w_st w' = w_st w /\ v_st w' = v_st w /\ e = false /\ wr = false /\
-  (find_pod t i (w_pods w') = None -> find_pod t i (w_pods w) = None \/ race = true).
-Proof. exact resync_adds_no_pod. Qed.
-Print Assumptions C06_resync_adds_no_pod.
+(* (the step-level facts about the resync worker's op -- it never adds a pod to the job cache -- are lemma
+   resync_adds_no_pod of C06/Lemmas.v: read off the definition, not counted as a property theorem; third audit E18) *)
 
 Example C06_nonvacuous :
   let sp := mkSpec [mkTask 1 3 (Some 1) [] None; mkTask 2 2 None [] None] 4 None 3 [] in
